@@ -37,6 +37,8 @@ pub struct ScriptIface {
     pub seen: Arc<Mutex<Vec<u8>>>,
     /// (interface name, description, request as seen by the implementation)
     pub calls: Arc<Mutex<Vec<Sx>>>,
+    /// socket suites: echo what the upgraded handler read as `UP:<bytes>`
+    pub echo_up: bool,
 }
 
 pub fn leak(s: &str) -> &'static str {
@@ -54,6 +56,12 @@ impl varlink::Interface for ScriptIface {
         let mut v = Vec::new();
         let _ = bufreader.read_to_end(&mut v);
         self.seen.lock().unwrap().extend_from_slice(&v);
+        if self.echo_up {
+            use std::io::Write;
+            let _ = _call.writer.write_all(b"UP:");
+            let _ = _call.writer.write_all(&v);
+            let _ = _call.writer.flush();
+        }
         Ok(Vec::new())
     }
     fn call(&self, call: &mut Call) -> varlink::Result<()> {
@@ -146,6 +154,10 @@ pub struct Built {
 }
 
 pub fn build_service(svc: &Sx) -> Built {
+    build_service_opts(svc, false)
+}
+
+pub fn build_service_opts(svc: &Sx, echo_up: bool) -> Built {
     let l = svc.as_list().expect("svc");
     let vendor = l[1].as_str().unwrap();
     let product = l[2].as_str().unwrap();
@@ -162,6 +174,7 @@ pub fn build_service(svc: &Sx) -> Built {
                 desc: leak(&il[2].as_str().unwrap()),
                 seen: seen.clone(),
                 calls: calls.clone(),
+                echo_up,
             })),
             "gen" => ifaces.push(Box::new(vtest::new(Box::new(VTestImpl)))),
             other => panic!("iface kind {}", other),
